@@ -177,7 +177,8 @@ def _make_ctx(kind, prepat, argpat, rel, inner_entry):
         except _Boom:
             pass
         except Exception as e:  # noqa: BLE001
-            return V(f"ctx-{kind}-unexpected-exception", lambda: f"{exc_name(e)}: {e}")
+            msg = f"{exc_name(e)}: {e}"
+            return V(f"ctx-{kind}-unexpected-exception", msg)
         for x in err:
             if isinstance(x, V):
                 return x
